@@ -118,7 +118,7 @@ def main():
             if p in sel:
                 jobs.append(("seed", os.path.basename(d), os.path.join(d, "patch.diff"), [p], True))
     if "ref" in a.what:
-        for f in sorted(glob.glob(os.path.join(ROOT, "refactors", "*.diff")) + glob.glob(os.path.join(ROOT, "refactors2", "*.diff")) + glob.glob(os.path.join(ROOT, "refactors3", "*.diff")) + glob.glob(os.path.join(ROOT, "refactors4", "*.diff")) + glob.glob(os.path.join(ROOT, "refactors5", "*.diff")) + glob.glob(os.path.join(ROOT, "refactors6", "*.diff")) + glob.glob(os.path.join(ROOT, "refactors7", "*.diff")) + glob.glob(os.path.join(ROOT, "refactors8", "*.diff")) + glob.glob(os.path.join(ROOT, "refactors9", "*.diff")) + glob.glob(os.path.join(ROOT, "refactors10", "*.diff"))):
+        for f in sorted(glob.glob(os.path.join(ROOT, "refactors", "*.diff")) + glob.glob(os.path.join(ROOT, "refactors2", "*.diff")) + glob.glob(os.path.join(ROOT, "refactors3", "*.diff")) + glob.glob(os.path.join(ROOT, "refactors4", "*.diff")) + glob.glob(os.path.join(ROOT, "refactors5", "*.diff")) + glob.glob(os.path.join(ROOT, "refactors6", "*.diff")) + glob.glob(os.path.join(ROOT, "refactors7", "*.diff")) + glob.glob(os.path.join(ROOT, "refactors8", "*.diff")) + glob.glob(os.path.join(ROOT, "refactors9", "*.diff")) + glob.glob(os.path.join(ROOT, "refactors10", "*.diff")) + glob.glob(os.path.join(ROOT, "refactors11", "*.diff"))):
             jobs.append(("ref", os.path.basename(f)[:-5], f, sel, False))
     bad = 0
     tally = {}
